@@ -221,7 +221,16 @@ func genRobustPlan(seed uint64, tier string) *Plan {
 				S: map[string]string{"how": "too-big-for-a-datagram-over-tcp"}}
 			data = b.Bytes()
 		}
-		if g.chance(5) {
+		if g.chance(4) {
+			// many short-lived TCP clients, one after the other: connect, send a valid request, hang up. The proxy may
+			// hold few connections at a time in this world (its descriptor limit); whatever it keeps of a client that
+			// has gone must not add up
+			id := g.nextID()
+			base = Op{Kind: "hostile", ID: id, Proto: "tcp", SrcIP: "10.1.0.4", Listen: g.intn(len(p.Cfg.Listens)), Conn: "h-" + id,
+				S: map[string]string{"how": "many-short-lived-clients"}, I: map[string]int{"clients": g.rng(40, 70)}}
+			p.Cfg.Knobs["maxTCPConns"] = 24
+			data = []byte{}
+		} else if g.chance(5) {
 			// a TCP peer that connects and says nothing, and stays: whoever connects after it must be served
 			id := g.nextID()
 			base = Op{Kind: "hostile", ID: id, Proto: "tcp", SrcIP: "10.1.0.3", Listen: g.intn(len(p.Cfg.Listens)), Conn: "h-" + id,
@@ -256,7 +265,7 @@ func genRobustPlan(seed uint64, tier string) *Plan {
 				base.I = map[string]int{"twice": 1} // the stray answer is retransmitted
 			}
 		}
-		if len(data) == 0 && base.S["how"] != "silent-connection" {
+		if len(data) == 0 && base.S["how"] != "silent-connection" && base.S["how"] != "many-short-lived-clients" {
 			data = []byte("\r\n")
 		}
 		if base.Proto == "udp" && len(data) > 65000 {
@@ -454,6 +463,29 @@ func execRobust(t *testing.T, p *Plan) *Result {
 				}
 				conn = c
 				c.Write(op.Data)
+				if how == "many-short-lived-clients" {
+					// room for a dozen more connections than the proxy holds now; the clients come one at a time
+					w.N.MaxProxyTCPConns = w.N.OpenProxyTCP() + 12
+					for k := 0; k < op.I["clients"] && !w.dead(); k++ {
+						cid := fmt.Sprintf("%s.c%d", op.ID, k)
+						b := &sipwire.Builder{Start: "OPTIONS sip:probe@svc.example.com SIP/2.0"}
+						b.Add("Via", "SIP/2.0/TCP 10.1.0.4:5060;branch=z9hG4bK"+strings.ReplaceAll(cid, "-", ""))
+						b.Add("From", "<sip:a@caller.test>;tag=1")
+						b.Add("To", "<sip:probe@svc.example.com>")
+						b.Add("Call-ID", "cid-"+cid)
+						b.Add("CSeq", "1 OPTIONS")
+						b.Add("X-Sim-Id", cid)
+						cc, err := w.TCPConnTo("short-"+cid, "10.1.0.4", 0, hostPort(l.Addr, l.TCP))
+						if err != nil {
+							break
+						}
+						cc.Write(b.Bytes())
+						w.K.Settle(time.Second)
+						cc.Close()
+						w.K.Settle(time.Second)
+					}
+					w.stat("probe:many-short-lived-tcp-clients")
+				}
 				if strings.HasPrefix(how, "valid-then-") {
 					w.K.Settle(10 * time.Second)
 					var relayed *Emitted
@@ -517,6 +549,7 @@ func execRobust(t *testing.T, p *Plan) *Result {
 			if !sentinel(op.ID, how) && w.dead() {
 				return
 			}
+			w.N.MaxProxyTCPConns = 0
 			if conn != nil && !conn.Closed() {
 				conn.Close()
 				w.K.Settle(time.Second)
